@@ -11,6 +11,7 @@ parsed contents equal to the original's).  One genuine exception is recorded in 
 (trace metadata extended by a zero byte: same seed, different parsed contents — the C24 finding).
 -/
 import Wf.Props.C07
+import Wf.Lemmas.ProofMono
 namespace Wf.Props.C04
 open Wf Wf.Props.C07
 
@@ -68,5 +69,28 @@ theorem encoding_injective (p q : ProofM) (hp : ProofValid p) (hq : ProofValid q
   rw [h] at h1
   rw [h1] at h2
   injection h2
+
+/-- the proof decoder looks only at the bytes it consumes: whenever some input parses to a proof,
+    the same input followed by any further bytes parses to the SAME proof and leaves exactly those
+    bytes (for EVERY input that parses, not only for encodings of valid proofs) -/
+theorem decode_stable_under_append (bs e : Bytes) (p : ProofM) (r : Bytes)
+    (h : proofDec bs = .ok p r) : proofDec (bs ++ e) = .ok p (r ++ e) :=
+  proofDec_mono bs p r e h
+
+/-- truncation is always noticed: NO strict prefix of the encoding of a valid proof parses to that
+    proof (so a truncated proof is either rejected by the parser or parses to different contents,
+    which the verifier then judges on their own) -/
+theorem truncated_proof_never_parses_to_original (p : ProofM) (h : ProofValid p) (k : Nat)
+    (hk : k < (proofEnc p).length) (r : Bytes) : proofDec ((proofEnc p).take k) ≠ .ok p r :=
+  truncated_not_ok' proofEnc proofDec proofDec_mono p
+    (by have := proof_roundtrip_ignores_trailing_bytes p h []; rwa [List.append_nil] at this) k hk r
+
+/-- the parser consumes a prefix: what it leaves is a suffix of its input, and the consumed prefix
+    alone parses to the same proof with nothing left (stated for the encodings the prover emits) -/
+theorem decode_consumes_exactly_the_encoding (p : ProofM) (h : ProofValid p) (extra : Bytes) (q : ProofM)
+    (r : Bytes) (hq : proofDec (proofEnc p ++ extra) = .ok q r) : q = p ∧ r = extra := by
+  rw [proof_roundtrip_ignores_trailing_bytes p h extra] at hq
+  injection hq with h1 h2
+  exact ⟨h1.symm, h2.symm⟩
 
 end Wf.Props.C04
